@@ -38,12 +38,16 @@ def civil_from_days(z):
     return y + (m <= 2), m, d
 
 
-def to_utc_fields(fields, offset_min):
+SUBSEC_US = [0, 600, -600, 500000, 1500000, 30000000]          # fractions of a second (and a half minute) added to the offset: legal for tzinfo objects
+
+
+def to_utc_fields(fields, offset_min, offset_us=0):
     Y, M, D, h, m, s, us = fields
-    secs = days_from_civil(Y, M, D) * 86400 + h * 3600 + m * 60 + s - offset_min * 60
+    total_us = (days_from_civil(Y, M, D) * 86400 + h * 3600 + m * 60 + s - offset_min * 60) * 1000000 + us - offset_us
+    secs, us2 = divmod(total_us, 1000000)
     days, rem = divmod(secs, 86400)
     y2, m2, d2 = civil_from_days(days)
-    return y2, m2, d2, rem // 3600, rem % 3600 // 60, rem % 60, us
+    return y2, m2, d2, rem // 3600, rem % 3600 // 60, rem % 60, us2
 
 
 def offsets(oi: int, ii: int, si: int, kind: int) -> bool:
@@ -53,19 +57,23 @@ def offsets(oi: int, ii: int, si: int, kind: int) -> bool:
     """
     oi, ii, si, kind = pick(oi, NOFF), pick(ii, NINST), pick(si, NSET), pick(kind, 3)
     with Native():
-        ok = run_offset_case(oi, ii, si, kind)
+        ok = all(run_offset_case(oi, ii, si, kind, ui) for ui in range(len(SUBSEC_US) if kind != 2 else 1))
     V.reached()
     return ok
 
 
-def run_offset_case(oi, ii, si, kind):
+def run_offset_case(oi, ii, si, kind, ui=0):
     p, c = SETTINGS[si]
     f = INSTANTS[ii]
     off = OFFSETS_MIN[oi]
-    tz = dt.timezone(dt.timedelta(minutes=off)) if kind != 2 else pytz.FixedOffset(off)
+    sub = SUBSEC_US[ui]
+    try:
+        tz = dt.timezone(dt.timedelta(minutes=off, microseconds=sub)) if kind != 2 else pytz.FixedOffset(off)
+    except ValueError:
+        return True                                   # offset out of the range tzinfo allows
     try:
         d = dt.datetime(*f, tzinfo=tz)
-        utc = to_utc_fields(f, off)
+        utc = to_utc_fields(f, off, sub)
         if not (1 <= utc[0] <= 9999):
             return True
     except (ValueError, OverflowError):
